@@ -108,8 +108,8 @@ func c11RespRun(r *Responder, c c11RespCase) (classes []string, nontrivial bool,
 	}
 	var stage string
 	o = c11h.Guard(c11h.BoundCPU, func() { _, stage = c11Handle(r, append([]byte(nil), c.Data...), cb) })
-	if o.Hung {
-		return []string{"hung"}, true, o
+	if o.Hung || o.Inconclusive {
+		return []string{"gave-up-waiting"}, true, o
 	}
 	if o.Panic == nil {
 		classes = append(classes, "stage:"+stage)
@@ -330,8 +330,8 @@ func c11FmtCheck(t vh.Fataler, rec *vh.Rec, c c11FmtCase, fuzz bool) {
 			cls = append(cls, "response:ok")
 		}
 	})
-	if o.Hung {
-		cls = []string{"hung"}
+	if o.Hung || o.Inconclusive {
+		cls = []string{"gave-up-waiting"}
 	}
 	c11h.Report(t, rec, c11FmtSub, "msgformat", c, vh.Digest([]byte(c.Data)), o, len(c.Data) > 0, append(cls, c11h.Source(fuzz))...)
 }
